@@ -5,7 +5,8 @@ Domain   generated histories (1-6 generations per history, nesting to any depth 
          one bit, insert a byte, delete a byte, truncate, append newline, replace by same-length bytes, remove
          file} at drawn positions (first/last byte weighted) or removal of a chain file; command = every
          history-reading command {create, create -sf, verify, verify -sf, verify -dh, diff, info, info -sf with and
-         without root, flatten}, invoked on the victim's history or any ancestor history; in a third of the worlds
+         without root, flatten}, invoked on the victim's history, any ancestor history, or the folder above them all
+         (which has no history of its own); in a third of the worlds
          the ascmhl folders also hold the temporary files an interrupted create leaves behind.
 Oracle   scope(command) = the history it loads and all descendants; victim in scope => exit code is exactly 31
          (edited) / 33 (manifest removed) / 32 (chain removed) and the before/after snapshot (type, bytes, mtime,
@@ -30,7 +31,7 @@ RULE = (
 )
 ASSUMPTIONS = ["one tamper at a time (plus a drawn share of double tampers); chain file content edits are outside the statement"]
 BUDGET = {"quick": (100, 4), "thorough": (7200, 16)}
-REQUIRED = ["leftover_partial_files", "older_generation", "nested_victim", "bitflip", "removed", "swapped_generation", "whitespace_only_edit", "chain_removed", "flatten", "info_sf_noroot"]
+REQUIRED = ["invoked_above_all_histories", "leftover_partial_files", "older_generation", "nested_victim", "bitflip", "removed", "swapped_generation", "whitespace_only_edit", "chain_removed", "flatten", "info_sf_noroot"]
 
 P1 = {
     "kinds": ["create"] * 6 + ["create_sf"] * 2 + ["put_new"] * 2 + ["overwrite", "mkdir"],
@@ -247,7 +248,11 @@ def run_case(scn, ctx):
                 t = scn["tampers"][ti % len(scn["tampers"])]
                 ti += 1
                 T = anc[(t["t"] + ti) % len(anc)]
-                files_below = w.media_files(T)
+                if (ti + scn["pick"][3]) % 4 == 0:
+                    # a folder that has no history of its own, above all histories: the damaged one lies below it
+                    T = ""
+                    ctx.event("invoked_above_all_histories")
+                files_below = [f for f in w.media_files(T) if not f.startswith("_flat/")]
                 label = "%s of generation %d in %r (pos %d)" % (t["edit"], n, h, t["pos"])
                 if t["edit"] == "remove":
                     os.remove(w.abs(p))
